@@ -6,6 +6,7 @@ import (
 	"fmt"
 	"go/constant"
 	"go/token"
+	"strings"
 	"go/types"
 	"sort"
 
@@ -57,6 +58,9 @@ func runC12(c *Ctx) {
 	for _, n := range names {
 		fn := P.Func("slice", "", n)
 		if fn == nil {
+			if n == "bisectRight" {
+				continue // a private helper: the search may be a library call instead (its lean is read at the call site)
+			}
 			c.undecided("ANCHOR", "slice."+n, 0, "not found")
 			return
 		}
@@ -566,6 +570,64 @@ func runC12(c *Ctx) {
 			continue
 		}
 		l, lwhy := lean(search)
+		// slices.BinarySearchFunc leans left for a comparison that reports equality; an adapter that never answers 0
+		// decides the lean itself: what it answers when the user's comparison says "equal" is the side equal elements
+		// are put on
+		if o := origin(search); o.Pkg != nil && o.Pkg.Pkg.Path() == "slices" && o.Name() == "BinarySearchFunc" {
+			for _, f := range withClosures(fn) {
+				allInstrs(f, func(in ssa.Instruction) {
+					call, ok := in.(*ssa.Call)
+					if !ok || origin(staticCallee(&call.Call)) != o || len(call.Call.Args) != 3 {
+						return
+					}
+					mc, ok := call.Call.Args[2].(*ssa.MakeClosure)
+					if !ok {
+						return
+					}
+					ad := mc.Fn.(*ssa.Function)
+					atEq, allConst := int64(0), true
+					seenEq := false
+					allInstrs(ad, func(in2 ssa.Instruction) {
+						ret, ok := in2.(*ssa.Return)
+						if !ok || len(ret.Results) != 1 {
+							return
+						}
+						k, ok := constInt(ret.Results[0])
+						if !ok {
+							allConst = false
+							return
+						}
+						// is this return taken when the wrapped comparison answers 0?
+						takes := true
+						for _, cm := range cmpsAt(ret.Block()) {
+							if _, isCall := cm.X.(*ssa.Call); !isCall || !isConstInt(cm.Y, 0) {
+								continue
+							}
+							var holds bool
+							switch cm.Op {
+							case token.LSS, token.GTR, token.NEQ:
+								holds = false
+							default:
+								holds = true
+							}
+							if !holds {
+								takes = false
+							}
+						}
+						if takes {
+							atEq, seenEq = k, true
+						}
+					})
+					if allConst && seenEq && atEq != 0 {
+						if atEq < 0 {
+							l, lwhy = "Right", "slices.BinarySearchFunc with an adapter that answers -1 for equal elements: first index whose element is greater than the target"
+						} else {
+							l, lwhy = "Left", "slices.BinarySearchFunc with an adapter that answers +1 for equal elements: first index whose element is not less than the target"
+						}
+					}
+				})
+			}
+		}
 		if l == "" {
 			c.undecided("R-LEAN-AGREE", key, pos, "lean of "+fnName(search)+" cannot be read: "+lwhy)
 			continue
@@ -633,6 +695,61 @@ func runC12(c *Ctx) {
 				}
 			}
 		})
+		if !okD {
+			// … or both are thin wrappers around one shared helper: the natural-order wrapper calls the helper the
+			// Func variant calls, with its own slice, cmp.Compare, and the same constant flags
+			isCompare := func(v ssa.Value) bool {
+				if ct, ok := v.(*ssa.ChangeType); ok {
+					v = ct.X
+				}
+				f, ok := v.(*ssa.Function)
+				return ok && origin(f).Name() == "Compare" && origin(f).Pkg != nil && origin(f).Pkg.Pkg.Path() == "cmp"
+			}
+			type hc struct {
+				h      *ssa.Function
+				consts string
+			}
+			var viaTarget []hc
+			allInstrs(target, func(in ssa.Instruction) {
+				call, ok := in.(*ssa.Call)
+				if !ok {
+					return
+				}
+				h := origin(staticCallee(&call.Call))
+				if h == nil || h.Pkg != target.Pkg || h.Blocks == nil || len(call.Call.Args) < 2 || call.Call.Args[0] != ssa.Value(target.Params[0]) {
+					return
+				}
+				var ks []string
+				for _, a := range call.Call.Args[1:] {
+					if k, ok := a.(*ssa.Const); ok {
+						ks = append(ks, k.String())
+					}
+				}
+				viaTarget = append(viaTarget, hc{h, strings.Join(ks, ",")})
+			})
+			allInstrs(fn, func(in ssa.Instruction) {
+				call, ok := in.(*ssa.Call)
+				if !ok || len(call.Call.Args) < 2 || call.Call.Args[0] != ssa.Value(fn.Params[0]) {
+					return
+				}
+				h := origin(staticCallee(&call.Call))
+				hasCmp := false
+				var ks []string
+				for _, a := range call.Call.Args[1:] {
+					if isCompare(a) {
+						hasCmp = true
+					}
+					if k, ok := a.(*ssa.Const); ok {
+						ks = append(ks, k.String())
+					}
+				}
+				for _, t := range viaTarget {
+					if t.h == h && hasCmp && t.consts == strings.Join(ks, ",") {
+						okD = true
+					}
+				}
+			})
+		}
 		c.judge(okD, "R-LEAN-AGREE", "slice."+pr[0]+":delegates", fn.Pos(), "calls "+pr[1]+"(vs, cmp.Compare)", pr[0]+" does not delegate to "+pr[1]+" with cmp.Compare")
 	}
 }
